@@ -97,6 +97,27 @@ def main(argv=None):
                     continue
                 rc = max(rc, r)
             return rc
+        if cmd == 'multi':
+            # tool mode (not registered in MANIFEST): all rule modules once, one shared program model, no hosting
+            os.environ['DOSA_NO_HOSTING'] = '1'
+            ctx = Ctx(tier, seed)
+            worst = 0
+            for pid in (argv[1:] or PROPS):
+                mod = importlib.import_module(f'dosa.rules.{pid.lower()}')
+                try:
+                    r = mod.run(ctx)
+                except Decided as exc:
+                    r = exc.chk.finish(explanation='partial', rule_text='', assumptions=[], not_decided='')
+                except AnalysisError as exc:
+                    print(f'ANALYSIS-ERROR: {pid}: {exc}')
+                    r = 2
+                except Exception:
+                    print(f'ANALYSIS-ERROR: {pid}: internal error in the analyser')
+                    traceback.print_exc()
+                    r = 2
+                print(f'[multi] {pid} rc={r}')
+                worst = max(worst, r)
+            return worst
         pid = cmd.upper()
         if pid not in PROPS:
             print('unknown property', pid)
